@@ -251,6 +251,11 @@ def gen_history(rng):
             for i in range(n):
                 for j in range(i):
                     op['H'][j * n + i] = op['H'][i * n + j]
+            # only the lower triangle of H is documented to be referenced: hand over a full symmetric
+            # matrix, a lower-triangular one, or one with junk above the diagonal
+            st = rng.choice(['full', 'full', 'lower', 'junk'])
+            if st != 'full':
+                op['H_upper'] = [0.0 if st == 'lower' else round(rng.uniform(-9, 9), 3) for _ in range(n * (n - 1) // 2)]
         if mnl:
             Df = gen.rmat(rng, mnl, n)
             if zero_col is not None:
@@ -311,6 +316,19 @@ def sym_rhs(rng, dims, mnl):
     return x
 
 
+def h_as_given(op, n):
+    """the values of H as the caller stores them (model: the symmetric matrix op['H'])"""
+    v = list(op['H'])
+    up = op.get('H_upper')
+    if up is not None:
+        k = 0
+        for j in range(n):
+            for i in range(j):
+                v[j * n + i] = up[k]
+                k += 1
+    return v
+
+
 def make_factory(misc, data, G, A):
     s = data['solver']
     f = getattr(misc, 'kkt_' + s)
@@ -356,7 +374,7 @@ def run_history(case, journal):
                 Hc = Dc = None
                 Ht = Dt = None
                 if 'H' in op:
-                    Hc = matrix(op['H'], (n, n), 'd')
+                    Hc = matrix(h_as_given(op, n), (n, n), 'd')
                     if data['H_sparse']:
                         Hc = sparse(Hc)
                     Ht = (n, n, op['H'])
@@ -476,7 +494,7 @@ def run_history(case, journal):
                     d2 = dict(data, solver=s)
                     try:
                         fac = make_factory(misc, d2, G, A)
-                        Hc = matrix(lastf['H'], (n, n), 'd') if 'H' in lastf else None
+                        Hc = matrix(h_as_given(lastf, n), (n, n), 'd') if 'H' in lastf else None
                         Dc = matrix(lastf['Df'], (mnl, n), 'd') if 'Df' in lastf else None
                         g = fac(W) if s == 'qr' else fac(W, Hc, Dc)
                         x, y, z = gen.V(last[0]), gen.V(last[1]), gen.V(last[2])
